@@ -45,6 +45,16 @@ CHECKS = {
             "Trusted: ground-truth successor from the generating model. Frames whose mean junction speed is exactly "
             "zero are excluded from the adimensional clause (0/0 undefined).",
             "DESIGN.md 4/C13"),
+    "C04": ("property-based testing (Hypothesis): analytic centre-of-curvature sides / turning angles / Young-Laplace "
+            "pressures, metamorphic re-orientation and scaling, independent zero-sum least squares",
+            "Generated-input exploration of five clauses on arc tissues with directly assigned tensions: equation "
+            "shape and side, turning-estimate law (0.97..1.03 of theta (n-2)/(n-1)), independence of stored "
+            "orientations and of scale, agreement with an independent min-norm least-squares solution, zero sum, "
+            "linearity in the tensions, zero for cells without interface, and correlation >= 0.9 with the analytic "
+            "pressures |s_i - pole|^2 where the stated equations themselves allow it.",
+            "Trusted: closed-form tissue model; rounding floors of the generated points are part of the tolerances. "
+            "Known finding D17: tissues whose ideal solution correlates < 0.92 are excluded from the 0.9 clause.",
+            "DESIGN.md 4/C04"),
     "C05": ("property-based testing (Hypothesis) with a KKT optimality certificate; hook record cross-checked",
             "Generated-input exploration: for noisy / equilibrium / fixture systems, square (inversion path) and "
             "rectangular (fallback), static and velocity right-hand sides, three back-ends, the reported tensions "
